@@ -32,6 +32,8 @@ RULES = {
     'R-BITS': ('r_arith', 'rule_BITS', 'default'),
     'R-SMP': ('r_layout', 'rule_SMP', 'default'),
     'R-CMP': ('r_guard', 'rule_CMP', 'default'),
+    'R-SELP': ('r_guard', 'rule_SELP', 'default'),
+    'R-NEG': ('r_misc', 'rule_NEG', 'default'),
     'R-HINT': ('r_layout', 'rule_HINT', 'default'),
 }
 
@@ -110,6 +112,8 @@ TEXT = {
     'R-SMP': 'R-SMP: select samples of RSSupportPlain: the writer stores the superblock of occurrences 0, N, 2N, ... (tests the counter before incrementing it) and the reader, composed with its caller, looks up slot k / N for the 0-based occurrence k, with the same N.',
     'R-CMP': 'R-CMP: within one function the same two quantities are never compared with two different strictnesses (coarse and linear phase of a search test one predicate).',
     'R-HINT': 'R-HINT: in RSNarrow::new / RSWide::new the counter tested against the hint period already includes the population of the line being scanned (a variable of the numerator is updated from a popcount in a block dominating the test).',
+    'R-SELP': 'R-SELP: select of the three trees uses only checked per-level rank/select whose None is propagated with `?` (no *_unchecked level query, no unwrap).',
+    'R-NEG': 'R-NEG: where zeros are found by complementing a word (BIT = false), the complement is taken of the stored word itself, never of a shifted or masked value.',
     'R-TAB': 'R-TAB: the compiler-evaluated K_SELECT_IN_BYTE is compared with its definition for all 2048 entries (exhaustive).',
 }
 
@@ -130,16 +134,16 @@ EXPL = ('Static analysis of the type-checked program (MIR, ADT/impl metadata, ev
         'configurations. Decides the structural clauses listed under `rule` -- necessary conditions of the property that are visible in the shape '
         'of the code on every path -- and NOT the input/output behaviour, which quantifies over runtime values. ')
 
-_p('C01', ['R-G', 'R-SIB', 'R-E', 'R-O', 'R-W', 'R-TW', 'R-DEL', 'R-LAY', 'R-BITS', 'R-SPLIT', 'R-SMP', 'R-CMP'], 'other',
+_p('C01', ['R-G', 'R-SIB', 'R-E', 'R-O', 'R-W', 'R-TW', 'R-DEL', 'R-LAY', 'R-BITS', 'R-SPLIT', 'R-SMP', 'R-CMP', 'R-SELP'], 'other',
    EXPL + 'C01: validation of QWaveletTree get/rank/rank_prefetch/select, empty/default state, argument arithmetic, symbol width in builder/partition/readers, construction paths.',
    'that ranks/offsets compose to the right count and position across levels; sigma / n_levels arithmetic; that stable_partition_of_4 is a stable permutation')
-_p('C02', ['R-G', 'R-SIB', 'R-E', 'R-O', 'R-W', 'R-LVL', 'R-TW', 'R-DEL', 'R-LAY', 'R-BITS', 'R-SPLIT', 'R-SMP'], 'other',
+_p('C02', ['R-G', 'R-SIB', 'R-E', 'R-O', 'R-W', 'R-LVL', 'R-TW', 'R-DEL', 'R-LAY', 'R-BITS', 'R-SPLIT', 'R-SMP', 'R-SELP'], 'other',
    EXPL + 'C02: validity test (symbol has a code) on rank/rank_prefetch/select, its width, empty state, level-write guard and provenance of code lengths, construction paths.',
    'correctness of craft_wm_codes (prefix-freeness, ordering), independence from hash-map tie order, decode-table search, code lengths beyond 16 levels')
-_p('C03', ['R-G', 'R-SIB', 'R-E', 'R-O', 'R-W', 'R-LVL', 'R-TW', 'R-DEL', 'R-LAY', 'R-BITS', 'R-SPLIT', 'R-HINT'], 'other',
+_p('C03', ['R-G', 'R-SIB', 'R-E', 'R-O', 'R-W', 'R-LVL', 'R-TW', 'R-DEL', 'R-LAY', 'R-BITS', 'R-SPLIT', 'R-HINT', 'R-SELP'], 'other',
    EXPL + 'C03: validation of WT/HWT get/rank/select in both specialisations, symbol carried in the element type, empty state, level-write guard, construction paths.',
    'wavelet-matrix arithmetic, binwt::craft_wm_codes table bounds for degenerate alphabets (loop-carried indices), tie orders')
-_p('C04', ['R-G', 'R-E', 'R-O', 'R-UNS', 'R-SIB', 'R-LAY', 'R-DA', 'R-DBG', 'R-SMP', 'R-CMP'], 'other',
+_p('C04', ['R-G', 'R-E', 'R-O', 'R-UNS', 'R-SIB', 'R-LAY', 'R-DA', 'R-DBG', 'R-SMP', 'R-CMP', 'R-SELP', 'R-PF'], 'other',
    EXPL + 'C04: every unchecked access is behind the documented guard, empty/default states reach no trap, argument arithmetic is bounded, unchecked API is unsafe, '
    'raw views match layouts.',
    'index arithmetic inside search loops (select_block, select*_subblock, block_predecessor, DArray word scan: sentinel invariants over stored data), CPU feature of _popcnt64, allocation failure')
@@ -149,10 +153,10 @@ _p('C05', ['R-G', 'R-SIB', 'R-E', 'R-TW', 'R-LAY', 'R-DEL', 'R-DA', 'R-SPLIT', '
 _p('C06', ['R-G', 'R-SIB', 'R-E', 'R-TW', 'R-LAY', 'R-DEL', 'R-SPLIT', 'R-CMP', 'R-HINT'], 'other',
    EXPL + 'C06: validation of RSNarrow/RSWide get/rank1/select1/select0, rank0 = i - rank1, empty state, packed counters and hint periods.',
    'counter construction and the hint/linear search')
-_p('C07', ['R-DAR', 'R-G', 'R-E', 'R-TW', 'R-DEL', 'R-LAY', 'R-SPLIT'], 'other',
+_p('C07', ['R-DAR', 'R-G', 'R-E', 'R-TW', 'R-DEL', 'R-LAY', 'R-SPLIT', 'R-NEG'], 'other',
    EXPL + 'C07: writer/reader agreement on the shared inventories, the u16 narrowing bound, flush trigger, select guards, default state.',
    'the word scan and sign-encoded pointers')
-_p('C08', ['R-SIB', 'R-NON', 'R-O', 'R-G', 'R-TW', 'R-LAY', 'R-E', 'R-SPLIT', 'R-CMP'], 'other',
+_p('C08', ['R-SIB', 'R-NON', 'R-O', 'R-G', 'R-TW', 'R-LAY', 'R-E', 'R-SPLIT', 'R-CMP', 'R-NEG'], 'other',
    EXPL + 'C08: BitVector vs BitVectorMut readers validate identically, cached population count depends on overwritten bits, conversions move every field, get_bits arithmetic.',
    'bit-level effect of set_symbol, word reads and position iterators over arbitrary histories')
 _p('C09', ['R-PF', 'R-EFF', 'R-SIB', 'R-LAY', 'R-BITS'], 'other',
@@ -173,7 +177,7 @@ _p('C12', ['R-IT'], 'other', EXPL + 'C12: cursor discipline of every ExactSizeIt
 _p('C13', ['R-MSK', 'R-G', 'R-TW', 'R-DEL', 'R-LAY', 'R-E', 'R-SPLIT'], 'other',
    EXPL + 'C13: two-bit truncation precedes the write, factor-2 agreement of push/len/get, extend pushes every element, get validation.',
    'bit placement inside the line for all 256 positions')
-_p('C14', ['R-LAY', 'R-BOX'], 'other', EXPL + 'C14: layouts and constants from which the relative overheads are computed and compared with the stated bounds; payload fields have no slack.',
+_p('C14', ['R-LAY', 'R-BOX', 'R-PF'], 'other', EXPL + 'C14: layouts and constants from which the relative overheads are computed and compared with the stated bounds; payload fields have no slack.',
    'the level-count formula and allocation totals for all n (loop trip counts)')
 _p('C15', ['R-LVL'], 'other', EXPL + 'C15: levels hold only live codes; optimal lengths used unmodified with the right fragment width.',
    'the numeric bounds n(H0+2), n(H0+1): they follow from Huffman optimality (trusted crate minimum_redundancy) given the decided clauses')
